@@ -12,8 +12,9 @@ history `h` of `seek`/`read`/`get_position` calls with arbitrary arguments, succ
 -/
 import Sqfs.Proofs.MetaReader
 import Sqfs.Proofs.DataReaderCache
+import Sqfs.Proofs.C10Prog
 namespace Sqfs.C10
-open Sqfs.MetaReader Sqfs.Consts
+open Sqfs.MetaReader Sqfs.Consts Sqfs.C10P
 
 /-- a freshly created reader is coherent -/
 theorem coherent_init (f : File) (unc : Codec) (start limit : Nat) (hl : limit ≤ NONE) :
@@ -92,17 +93,6 @@ theorem failed_miss_unpositions (f : File) (unc : Codec) (m : MR) (b o : Nat)
 /-- after a successful seek, `get_position` reports the position asked for -/
 theorem seek_then_position (f : File) (unc : Codec) (hc : CodecOK unc) (m : MR) (b o : Nat)
     (h : (seek true f unc m b o).1 = 0) : getPos (seek true f unc m b o).2 = (b, o) := seek_getPos hc h
-
-/-- **xattr reader, out-of-line values** (`read_value_hdr` / `sqfs_xattr_reader_read_value`): remember
-`get_position`, seek to the referenced value, read it, seek back.  If that succeeds, the key/value reader reports
-the remembered position again and *every* continuation (the following keys and values) reads exactly what it
-would have read had the detour not happened — also when the remembered position was the end of a block, where
-`get_position` names the start of the next block instead. -/
-theorem ool_position_restored (f : File) (unc : Codec) (hc : CodecOK unc) (m : MR) (hm : Coherent f unc m)
-    (b o n : Nat) (hok : (oolDetour true f unc m b o n).1 = 0) :
-    getPos (oolDetour true f unc m b o n).2.2 = getPos m ∧
-    ∀ ns, answerReads true f unc (oolDetour true f unc m b o n).2.2 ns = answerReads true f unc m ns :=
-  oolDetour_restores hc hm b o n hok
 
 /-! ### Part 2: the data reader (`lib/sqfs/src/data_reader.c`)
 
@@ -212,6 +202,120 @@ theorem stream_fail_stops (f : File) (unc : Codec) (d d' : DataReader.DR) (s : D
       | fail e' => exact key _
       | early e' => exact key _
 
+/-! ### Part 3: the decoders on top of the metadata reader
+
+`Sqfs/Model/C10Dec.lean` models `sqfs_meta_reader_read_inode`, `sqfs_meta_reader_readdir`, the dir reader's
+`get_inode`/`open_dir`/`read`/`resolve_path`, the xattr reader's `get_desc`/`seek_kv`/`read_key`/`read_value`/
+`read`/`read_all` and `sqfs_read_table` as *programs* (`Prog`): trees of `seek`/`read`/`get_position` calls on the
+reader objects the API object owns, returning at the first failing call.  `WF noneYet p` ("seek first") says that
+`p` reads a reader only after positioning it itself.  `usedFam f unc w h` is any family of reader objects reachable
+from freshly created ones (reader `k` created with window `w k`) by arbitrary histories `h k` of raw calls —
+which includes everything earlier programs did to them, successful or not, because every program only ever
+issues such calls; `freshFam w` are the freshly created ones. -/
+
+/-- **Lifting theorem.**  Every seek-first program — whatever it computes from the bytes it reads — returns on
+used reader objects what it returns on freshly created ones, and leaves every reader object coherent. -/
+theorem prog_history_independent {α : Type} (f : File) (unc : Codec) (hc : CodecOK unc) (w : Nat → Nat × Nat)
+    (hw : ∀ k, (w k).2 ≤ NONE) (h : Nat → List Op) (p : Prog α) (hp : WF noneYet p) :
+    (exec true f unc p (usedFam f unc w h)).1 = (exec true f unc p (freshFam w)).1 ∧
+    ∀ k, Coherent f unc ((exec true f unc p (usedFam f unc w h)).2 k) := by
+  obtain ⟨e1, e2⟩ := exec_obs hc p noneYet _ _ (rel_used_fresh hc w hw h) hp
+  exact ⟨e1, fun k => (e2 k).1⟩
+
+/-- **Clients.**  A chain of seek-first calls — each chosen from the answers to the earlier ones — has the same
+outcome on used readers with arbitrary foreign histories `hs` happening on the same objects *between* its calls
+as on fresh readers without any interleaving. -/
+theorem session_history_independent {α β : Type} (f : File) (unc : Codec) (hc : CodecOK unc) (w : Nat → Nat × Nat)
+    (hw : ∀ k, (w k).2 ≤ NONE) (h : Nat → List Op) (s : Session α β) (hs : s.WF) (between : List (Nat → List Op)) :
+    (s.runI true f unc (usedFam f unc w h) between).1 = (s.runI true f unc (freshFam w) []).1 :=
+  session_obs hc s _ _ _ _ (rel_used_fresh hc w hw h) hs
+
+/-- inode by reference: `sqfs_dir_reader_get_inode` (= `sqfs_meta_reader_read_inode` on `meta_inode`) -/
+theorem inode_by_ref_history_independent (f : File) (unc : Codec) (hc : CodecOK unc) (w : Nat → Nat × Nat)
+    (hw : ∀ k, (w k).2 ≤ NONE) (h : Nat → List Op) (d : DirRd) (ref : Nat) :
+    (exec true f unc (d.getInodeP ref) (usedFam f unc w h)).1 = (exec true f unc (d.getInodeP ref) (freshFam w)).1 :=
+  (prog_history_independent f unc hc w hw h _ (readInodeP_wf _ _ _ _ _)).1
+
+/-- one `sqfs_dir_reader_read` call with the caller's cursor `it` -/
+theorem readdir_call_history_independent (f : File) (unc : Codec) (hc : CodecOK unc) (w : Nat → Nat × Nat)
+    (hw : ∀ k, (w k).2 ≤ NONE) (h : Nat → List Op) (d : DirRd) (it : Rd) :
+    (exec true f unc (d.readP it) (usedFam f unc w h)).1 = (exec true f unc (d.readP it) (freshFam w)).1 :=
+  (prog_history_independent f unc hc w hw h _ (readdirP_wf 1 it)).1
+
+/-- directory listing: the entries (and their inode references) a listing delivers do not depend on what the dir
+reader was used for before **nor on what it is used for between the `read` calls of the listing** (the cursor
+lives in the caller's `sqfs_dir_reader_state_t`, not in the reader) -/
+theorem dir_listing_history_independent (f : File) (unc : Codec) (hc : CodecOK unc) (w : Nat → Nat × Nat)
+    (hw : ∀ k, (w k).2 ≤ NONE) (h : Nat → List Op) (d : DirRd) (fuel : Nat) (it : Rd) (between : List (Nat → List Op)) :
+    ((listSession d fuel it []).runI true f unc (usedFam f unc w h) between).1 =
+    ((listSession d fuel it []).runI true f unc (freshFam w) []).1 :=
+  session_history_independent f unc hc w hw h _ (listSession_wf d fuel it []) between
+
+/-- the same for the listing done in one go (`get_inode`, `open_dir`, all `read` calls) -/
+theorem dir_list_history_independent (f : File) (unc : Codec) (hc : CodecOK unc) (w : Nat → Nat × Nat)
+    (hw : ∀ k, (w k).2 ≤ NONE) (h : Nat → List Op) (d : DirRd) (ref : Nat) :
+    (exec true f unc (d.listP ref) (usedFam f unc w h)).1 = (exec true f unc (d.listP ref) (freshFam w)).1 :=
+  (prog_history_independent f unc hc w hw h _ (listP_wf d ref)).1
+
+/-- path resolution: `sqfs_dir_reader_resolve_path(rd, path, NULL, &ref)` — alternating `get_inode` on `meta_inode`
+and listings on `meta_dir`, for every path -/
+theorem path_resolution_history_independent (f : File) (unc : Codec) (hc : CodecOK unc) (w : Nat → Nat × Nat)
+    (hw : ∀ k, (w k).2 ≤ NONE) (h : Nat → List Op) (d : DirRd) (path : Bytes) :
+    (exec true f unc (d.resolveP path) (usedFam f unc w h)).1 = (exec true f unc (d.resolveP path) (freshFam w)).1 :=
+  (prog_history_independent f unc hc w hw h _ (resolveP_wf d path)).1
+
+/-- xattr descriptor: `sqfs_xattr_reader_get_desc` -/
+theorem xattr_desc_history_independent (f : File) (unc : Codec) (hc : CodecOK unc) (w : Nat → Nat × Nat)
+    (hw : ∀ k, (w k).2 ≤ NONE) (h : Nat → List Op) (x : XR) (idx : Nat) :
+    (exec true f unc (x.getDescP idx) (usedFam f unc w h)).1 = (exec true f unc (x.getDescP idx) (freshFam w)).1 :=
+  (prog_history_independent f unc hc w hw h _ (getDescP_wf x idx)).1
+
+/-- xattr set: `sqfs_xattr_reader_read_all` — descriptor, `seek_kv`, then key after key, value after value,
+out-of-line detours included; in particular whatever an earlier request left behind when it failed half way
+(inside a key, inside an out-of-line value, before seeking back) has no effect -/
+theorem xattr_set_history_independent (f : File) (unc : Codec) (hc : CodecOK unc) (w : Nat → Nat × Nat)
+    (hw : ∀ k, (w k).2 ≤ NONE) (h : Nat → List Op) (x : XR) (idx : Nat) :
+    (exec true f unc (x.readAllP idx) (usedFam f unc w h)).1 = (exec true f unc (x.readAllP idx) (freshFam w)).1 :=
+  (prog_history_independent f unc hc w hw h _ (readAllP_wf x idx)).1
+
+/-- the low-level walk: `seek_kv` with any descriptor, then `n` times `read_key` + `read_value` -/
+theorem xattr_walk_history_independent (f : File) (unc : Codec) (hc : CodecOK unc) (w : Nat → Nat × Nat)
+    (hw : ∀ k, (w k).2 ≤ NONE) (h : Nat → List Op) (x : XR) (desc : XDesc) (n : Nat) :
+    (exec true f unc (x.seekKvP desc (x.readPairsP n [])) (usedFam f unc w h)).1 =
+    (exec true f unc (x.seekKvP desc (x.readPairsP n [])) (freshFam w)).1 := by
+  apply (prog_history_independent f unc hc w hw h _ _).1
+  unfold XR.seekKvP
+  split
+  · trivial
+  · exact readPairsP_wf x _ _ _ (by simp)
+
+/-- **xattr reader, out-of-line values** (`read_value_hdr` / `sqfs_xattr_reader_read_value`): remember
+`get_position`, seek to the referenced value, read it, seek back.  If that succeeds, the key/value reader reports
+the position right behind the value's 4-byte header and 8-byte reference, and *every* continuation that goes on
+reading there (the following keys and values) gets exactly what it would get had the value been skipped without
+the detour — also when that position is the end of a block, where `get_position` names the next block instead. -/
+theorem ool_position_restored {β : Type} (f : File) (unc : Codec) (hc : CodecOK unc) (x : XR) (keyType : Nat)
+    (hool : keyType / xattrFlagOol % 2 = 1) (S : Readers) (hS : ∀ k, Coherent f unc (S k)) (v : Bytes)
+    (hok : (exec true f unc (x.readValueApiP keyType) S).1 = .ok v) :
+    let after := (exec true f unc (x.readValueApiP keyType) S).2
+    let skipped := (exec true f unc valueHeaderP S).2
+    getPos (after 1) = getPos (skipped 1) ∧
+    ∀ (q : Prog β), WF (fun k => k == 1) q → (exec true f unc q after).1 = (exec true f unc q skipped).1 := by
+  obtain ⟨hoth, c2, c1, hs, hl, hobs⟩ := readValue_ool_obs hc x keyType hool S (hS 1) v hok
+  intro after skipped
+  refine ⟨(obs_getPos hc hobs).symm, fun q hq => ?_⟩
+  have hR : Rel f unc (fun k => k == 1) skipped after := by
+    intro k
+    by_cases hk : k = 1
+    · subst hk
+      exact ⟨c2, c1, hs, hl, fun _ => hobs⟩
+    · obtain ⟨a, b⟩ := hoth k hk
+      have ea : after k = S k := a
+      have eb : skipped k = S k := b
+      rw [ea, eb]
+      exact ⟨hS k, hS k, rfl, rfl, fun _ => Or.inl (Sim.refl _)⟩
+  exact ((exec_obs hc q _ _ _ hR hq).1).symm
+
 /-! ### the hypotheses are satisfiable, the statements are not vacuous -/
 
 /-- the toy codec of the harness meets the contract -/
@@ -259,11 +363,59 @@ example : answer true exFile toyUnc (run true exFile toyUnc (fresh 0 10) [.seek 
 
 example : (10 : Nat) ≤ NONE := by decide
 
-/-- an instance of `ool_position_restored` whose remembered position is the end of block A (so that
-`get_position` names block B): the detour into block A succeeds -/
-example : (oolDetour true exFile toyUnc (run true exFile toyUnc (fresh 0 10) [.seek 0 0, .read 4]) 0 1 2).1 = 0 ∧
-    getPos (run true exFile toyUnc (fresh 0 10) [.seek 0 0, .read 4]) = (6, 0) := by
-  decide +kernel
+/-! #### Part 3 instances -/
+
+/-- inode table at 0: one raw block with a FIFO inode (reference 0) and the root directory inode (reference 20);
+directory table at 54: one raw block with the listing `a -> FIFO` -/
+private def exImg : File :=
+  { size := 77,
+    byte := fun i => ([0x34, 0x80,
+      0x06, 0x00, 0xA4, 0x01, 0, 0, 0, 0, 0, 0, 0, 0, 0x02, 0, 0, 0, 0x01, 0, 0, 0,
+      0x01, 0x00, 0xED, 0x01, 0, 0, 0, 0, 0, 0, 0, 0, 0x01, 0, 0, 0, 0, 0, 0, 0, 0x02, 0, 0, 0, 0x18, 0, 0, 0, 0, 0, 0, 0,
+      0x15, 0x80,
+      0, 0, 0, 0, 0, 0, 0, 0, 0x02, 0, 0, 0, 0, 0, 0, 0, 0x06, 0, 0, 0, 0x61] : List UInt8).getD i 0,
+    bad := fun _ => false }
+
+private def exDir : DirRd := { inodeStart := 0, dirStart := 54, rootRef := 20, blockSize := 4096 }
+private def exWin : Nat → Nat × Nat := fun k => if k = 0 then (0, 54) else (54, 77)
+/-- histories with failures: `meta_inode` was sent to a bad offset, `meta_dir` into the middle of the listing -/
+private def exHist : Nat → List Op := fun k => if k = 0 then [.seek 0 0, .seek 0 100, .read 3] else [.seek 54 3, .read 50]
+
+example : ∀ k, (exWin k).2 ≤ NONE := by
+  intro k; unfold exWin; split <;> decide
+
+/-- `resolve_path("/a")` on the used readers finds the FIFO inode (reference 0) -/
+example : (match (exec true exImg toyUnc (exDir.resolveP [0x2f, 0x61]) (usedFam exImg toyUnc exWin exHist)).1 with
+    | .ok r => decide (r = 0) | .error _ => false) = true := by decide +kernel
+
+/-- and `get_inode(0)` decodes it: type 6, mode 0644 | S_IFIFO, inode number 2, nlink 1 -/
+example : (match (exec true exImg toyUnc (exDir.getInodeP 0) (usedFam exImg toyUnc exWin exHist)).1 with
+    | .ok i => decide (i = { typ := 6, mode := 0o010644, uid := 0, gid := 0, mtime := 0, inum := 2, fields := [1], extra := [] })
+    | .error _ => false) = true := by decide +kernel
+
+/-- key/value block at 0: the value record "vv", key `user.k` whose value is out of line (reference 0 = that
+record), key `user.j` with the inline value "w" -/
+private def exKv : File :=
+  { size := 35,
+    byte := fun i => ([0x21, 0x80,
+      0x02, 0, 0, 0, 0x76, 0x76,
+      0x00, 0x01, 0x01, 0x00, 0x6b,  0x08, 0, 0, 0,  0, 0, 0, 0, 0, 0, 0, 0,
+      0x00, 0x00, 0x01, 0x00, 0x6a,  0x01, 0, 0, 0, 0x77] : List UInt8).getD i 0,
+    bad := fun _ => false }
+
+private def exXr : XR := { loaded := true, xattrStart := 0, xattrEnd := 35, numIds := 0, idBlockStarts := [] }
+/-- both readers over the whole image; the key/value reader stands right behind the key `user.k` -/
+private def exS : Readers := fun k => if k = 1 then (seek true exKv toyUnc (fresh 0 35) 0 11).2 else fresh 0 35
+
+/-- the hypothesis of `ool_position_restored` is satisfiable: the out-of-line value is delivered … -/
+example : (match (exec true exKv toyUnc (exXr.readValueApiP 0x100) exS).1 with
+    | .ok v => decide (v = [0x76, 0x76]) | .error _ => false) = true := by decide +kernel
+
+/-- … and the next pair is read from the right place afterwards -/
+example : (match (exec true exKv toyUnc (exXr.readPairsP 1 []) (exec true exKv toyUnc (exXr.readValueApiP 0x100) exS).2).1 with
+    | .ok l => decide (l = [("user.j".toUTF8.toList, [0x77])]) | .error _ => false) = true := by decide +kernel
+
+example : (0x100 : Nat) / xattrFlagOol % 2 = 1 := by decide
 
 /-- `ConsIno` for the code before 36fa767 is satisfiable by a non-trivial inode (one raw 8-byte block at location 0) -/
 example : DataReader.ConsIno false (fun _ => 16777224)
